@@ -993,6 +993,15 @@ func (ma *mergeAnalysis) ruleR8(c *Ctx) {
 			if bad == "" && !found {
 				bad = fmt.Sprintf("no presence test or range over the plugin's own %q controls this claim: the item is claimed whether or not the plugin set it", item)
 			}
+			// every controlling condition is a presence test (nil, "", empty), an iteration or a removal-marker
+			// test: a condition on the *value* makes the claim (and the write under it) skip values the plugin did set
+			if bad == "" {
+				for _, cd := range conds {
+					if why := mf.nonPresenceCond(cd); why != "" {
+						bad = fmt.Sprintf("the claim additionally depends on %s (test at %s): a value the plugin set is skipped — neither claimed nor applied — or the marker form is not honoured for some inputs", why, c.pos(cd.If.Pos()))
+					}
+				}
+			}
 			c.ok("R8", key, cc.call.Pos(), bad == "", what, bad)
 		}
 	}
@@ -1127,4 +1136,52 @@ func resolveParamAP(m *Module, f *ssa.Function, prm *ssa.Parameter) (AP, bool) {
 		n++
 	}
 	return res, n > 0
+}
+
+// nonPresenceCond returns a description if the condition is not one of the accepted presence /
+// iteration / marker shapes: x != nil, x != "", len(x) != 0 (or > 0, == 0), a range test, a
+// removal-marker test, a lookup hit in a local partition, an error test, a comparison of ids.
+func (mf *mergeFn) nonPresenceCond(cd Cond) string {
+	n := normCond(cd)
+	switch x := n.V.(type) {
+	case *ssa.Extract:
+		return "" // range ok / lookup ok / marker flag
+	case *ssa.UnOp:
+		return ""
+	case *ssa.Call:
+		return "" // predicate call (isX)
+	case *ssa.BinOp:
+		// slice range loops: i < len(xs)
+		if x.Op == token.LSS {
+			if _, ok := isBuiltinCall(x.Y, "len"); ok {
+				if _, isPhi := x.X.(*ssa.Phi); isPhi {
+					return ""
+				}
+				if bo, ok := x.X.(*ssa.BinOp); ok && bo.Op == token.ADD {
+					return ""
+				}
+			}
+		}
+		if isNilConst(x.Y) || isNilConst(x.X) {
+			return ""
+		}
+		if s, ok := constString(x.Y); ok {
+			if s == "" {
+				return ""
+			}
+			return fmt.Sprintf("a comparison with the constant %q", s)
+		}
+		if k, ok := constInt(x.Y); ok {
+			if _, isLen := isBuiltinCall(x.X, "len"); isLen {
+				if k == 0 {
+					return ""
+				}
+				return fmt.Sprintf("the length being compared with %d", k)
+			}
+			return fmt.Sprintf("a numeric comparison of the value with %d", k)
+		}
+		// comparison of two non-constant values (ids) is fine
+		return ""
+	}
+	return ""
 }
